@@ -40,6 +40,10 @@ def run(ctx):
             g = rr["graph"]
             kinds = "+".join(sorted(set(g["kinds"])))
             sig = "freeze:%s: %s" % (kinds, re.sub(r"\d+", "N", re.sub(r":.*", "", p))[:80])
+            if "boxreb" in g["kinds"]:
+                # one finding whatever else the graph holds: what is reachable only through a closure variable that was
+                # rebound after the host froze a container of the closure
+                sig = "freeze:rebound-after-early-freeze-of-container"
             ctx.violation(sig, "%s | module: %s" % (p, rr["src"].replace("\n", "; ")), {"graph": g})
     ctx.cov.update({"evaluations": summ["probes"], "traces_validated_against_impl": summ["graphs"],
                     "distinct_nontrivial": summ["graphs_with_frozen_mutable"], "graphs": n})
